@@ -60,7 +60,8 @@ func (s *gscope) visible(typ string) []string {
 }
 
 func scalarType(t string) bool {
-	return t == "int" || t == "bool" || t == "str" || t == "float"
+	// function values have no dynamic type in zygo, so re-binding them is never refused
+	return t == "int" || t == "bool" || t == "str" || t == "float" || t == "fn0" || t == "fn1" || t == "fn2"
 }
 
 func sortStrings(a []string) {
@@ -257,6 +258,12 @@ func (g *gen) expr(typ string, depth int) *Node {
 }
 
 func (g *gen) leaf(typ string) *Node {
+	if g.cfg.ScopeOnly && typ == "int" && g.chance(12, "anyName") {
+		// a name that need not be lexically visible here: it may be unbound, or bound only in
+		// a caller's frame (which a lexically scoped language must not see)
+		g.feat("possibly-non-lexical-name")
+		return NVar(rapid.SampledFrom(g.cfg.VarNames).Draw(g.t, "anyVar"))
+	}
 	if vs := g.scope.visible(typ); len(vs) > 0 && !g.chance(3, "lit") {
 		return NVar(rapid.SampledFrom(vs).Draw(g.t, "var"))
 	}
@@ -289,6 +296,8 @@ func (g *gen) leaf(typ string) *Node {
 			n.Kids = append(n.Kids, g.intLit())
 		}
 		return n
+	case "fn0":
+		return g.fnLiteral(nil, "int")
 	case "fn1":
 		return g.fnLiteral([]string{"int"}, "int")
 	case "fn2":
@@ -328,7 +337,7 @@ func (g *gen) exprInner(typ string, depth int) *Node {
 		for i := 0; i < k; i++ {
 			types[i] = rapid.SampledFrom([]string{"int", "int", "bool", "arr"}).Draw(g.t, "bt")
 			if g.cfg.ScopeOnly {
-				types[i] = "int"
+				types[i] = rapid.SampledFrom([]string{"int", "int", "fn0"}).Draw(g.t, "sbt")
 			}
 		}
 		g.push()
@@ -458,9 +467,12 @@ func (g *gen) exprInner(typ string, depth int) *Node {
 			return n
 		}
 		return g.leaf("list")
-	case "fn1", "fn2":
+	case "fn0", "fn1", "fn2":
 		if vs := g.scope.visible(typ); len(vs) > 0 && g.chance(2, "fnvar") {
 			return NVar(rapid.SampledFrom(vs).Draw(g.t, "fv"))
+		}
+		if typ == "fn0" {
+			return g.fnLiteral(nil, "int")
 		}
 		if typ == "fn1" {
 			return g.fnLiteral([]string{"int"}, "int")
@@ -483,7 +495,11 @@ func (g *gen) intExpr(d int) *Node {
 	if g.cfg.ScopeOnly {
 		max = 4
 	}
-	switch g.pick(max, "ik") {
+	k := g.pick(max, "ik")
+	if g.cfg.ScopeOnly && k < 2 && g.chance(2, "preferCall") {
+		k = 2 + g.pick(2, "whichCall")
+	}
+	switch k {
 	case 0, 1:
 		op := rapid.SampledFrom([]string{"+", "-", "*"}).Draw(g.t, "iop")
 		n := NPrim(op, g.expr("int", d), g.expr("int", d))
@@ -493,6 +509,10 @@ func (g *gen) intExpr(d int) *Node {
 		return n
 	case 2:
 		// call through a function value
+		if vs := g.scope.visible("fn0"); len(vs) > 0 && g.chance(2, "fn0first") {
+			g.feat("call-through-variable")
+			return NCall(NVar(rapid.SampledFrom(vs).Draw(g.t, "f0v")))
+		}
 		if vs := g.scope.visible("fn1"); len(vs) > 0 {
 			g.feat("call-through-variable")
 			return NCall(NVar(rapid.SampledFrom(vs).Draw(g.t, "f1")), g.expr("int", d))
@@ -503,6 +523,25 @@ func (g *gen) intExpr(d int) *Node {
 		}
 		return g.leaf("int")
 	case 3:
+		if g.cfg.ScopeOnly {
+			switch g.pick(3, "sck") {
+			case 0:
+				if vs := g.scope.visible("fn0"); len(vs) > 0 {
+					g.feat("call-through-variable")
+					return NCall(NVar(rapid.SampledFrom(vs).Draw(g.t, "f0")))
+				}
+			case 1:
+				// call of a closure returned by a named function: ((mk ..))
+				if c := g.callNamed("fn0", d); c != nil {
+					g.feat("call-returned-closure")
+					return NCall(c)
+				}
+				if c := g.callNamed("fn1", d); c != nil {
+					g.feat("call-returned-closure")
+					return NCall(c, g.expr("int", d))
+				}
+			}
+		}
 		// immediately applied function literal (computed callee)
 		g.feat("computed-callee")
 		return NCall(g.fnLiteral([]string{"int"}, "int"), g.expr("int", d))
@@ -580,7 +619,7 @@ func (g *gen) fnLiteral(ptypes []string, ret string) *Node {
 		n.Names = append(n.Names, nm)
 		g.scope.vars[nm] = gvar{typ: pt}
 	}
-	if g.chance(3, "fnstmts") {
+	if g.chance(3, "fnstmts") || (g.cfg.ScopeOnly && g.chance(2, "fnstmts2")) {
 		n.Kids = append(n.Kids, g.bodyStmts(2)...)
 	}
 	d := g.cfg.MaxDepth - 2
@@ -676,7 +715,7 @@ func (g *gen) stmt(d int) *Node {
 		// def of a new (or same-typed) name in the innermost scope
 		typ := rapid.SampledFrom([]string{"int", "int", "int", "bool", "str", "arr", "list", "hash", "fn1", "float"}).Draw(g.t, "dt")
 		if g.cfg.ScopeOnly {
-			typ = rapid.SampledFrom([]string{"int", "int", "fn1"}).Draw(g.t, "dts")
+			typ = rapid.SampledFrom([]string{"int", "int", "fn1", "fn0", "fn0"}).Draw(g.t, "dts")
 		}
 		if g.scope.isLoop && !scalarType(typ) {
 			// re-executed on every iteration with content-dependent dynamic types
@@ -796,7 +835,9 @@ func (g *gen) forLoop(d int) *Node {
 }
 
 // defn: a named function; sometimes recursive, sometimes variadic.
-func (g *gen) defn(d int) *Node {
+func (g *gen) defn(d int) *Node { return g.defnRet(d, "") }
+
+func (g *gen) defnRet(d int, forceRet string) *Node {
 	g.feat("defn")
 	g.defMode = true
 	name := g.freshName("defn", g.cfg.FnNames)
@@ -816,7 +857,10 @@ func (g *gen) defn(d int) *Node {
 	n := &Node{K: "defn", S: name}
 	sig := &fnsig{Ret: rapid.SampledFrom([]string{"int", "int", "int", "bool", "arr"}).Draw(g.t, "ret")}
 	if g.cfg.ScopeOnly {
-		sig.Ret = "int"
+		sig.Ret = rapid.SampledFrom([]string{"int", "int", "fn0", "fn0", "fn1"}).Draw(g.t, "sret")
+	}
+	if forceRet != "" {
+		sig.Ret = forceRet
 	}
 	shape := g.pick(4, "fshape")
 	np := 1 + g.pick(2, "np")
@@ -824,6 +868,9 @@ func (g *gen) defn(d int) *Node {
 		pt := "int"
 		if i > 0 && !g.cfg.ScopeOnly {
 			pt = rapid.SampledFrom([]string{"int", "int", "bool", "fn1", "arr"}).Draw(g.t, "pt")
+		}
+		if i > 0 && g.cfg.ScopeOnly {
+			pt = rapid.SampledFrom([]string{"int", "fn0", "fn1"}).Draw(g.t, "spt")
 		}
 		sig.Params = append(sig.Params, pt)
 		sig.Lazy = append(sig.Lazy, false)
@@ -903,6 +950,37 @@ func (g *gen) defn(d int) *Node {
 // program: top-level forms; the last one is an expression whose value is the result.
 func (g *gen) program() []*Node {
 	var forms []*Node
+	if g.cfg.ScopeOnly {
+		// closure factories whose results are bound at top level and called after the
+		// factory returned, interleaved, so that captured variables must outlive and stay
+		// separate per activation
+		var insts [][2]string
+		for k := 0; k < 1+g.pick(3, "nmakers"); k++ {
+			ret := rapid.SampledFrom([]string{"fn0", "fn0", "fn1"}).Draw(g.t, "mret")
+			forms = append(forms, g.defnRet(0, ret))
+			for j := 0; j < 1+g.pick(2, "ninst"); j++ {
+				if c := g.callNamed(ret, 1); c != nil {
+					nm := g.freshName(ret, g.cfg.VarNames)
+					g.scope.vars[nm] = gvar{typ: ret}
+					forms = append(forms, NDef(nm, c))
+					insts = append(insts, [2]string{nm, ret})
+				}
+			}
+		}
+		for k := 0; k < 2+g.pick(5, "nuses"); k++ {
+			if len(insts) > 0 && !g.chance(4, "freeUse") {
+				in := insts[g.pick(len(insts), "inst")]
+				call := NCall(NVar(in[0]))
+				if in[1] == "fn1" {
+					call.Kids = append(call.Kids, g.intLit())
+				}
+				g.feat("instance-called-after-factory-returned")
+				forms = append(forms, NTrace(call))
+			} else {
+				forms = append(forms, NTrace(g.expr("int", 2)))
+			}
+		}
+	}
 	nf := 1 + g.pick(7, "nforms")
 	for i := 0; i < nf && g.budget > 0; i++ {
 		switch g.pick(4, "topk") {
@@ -912,7 +990,11 @@ func (g *gen) program() []*Node {
 			forms = append(forms, g.stmt(0))
 		}
 	}
-	forms = append(forms, g.expr(rapid.SampledFrom([]string{"int", "int", "bool", "str", "arr", "list"}).Draw(g.t, "finalt"), 0))
+	finalTypes := []string{"int", "int", "bool", "str", "arr", "list"}
+	if g.cfg.ScopeOnly {
+		finalTypes = []string{"int"}
+	}
+	forms = append(forms, g.expr(rapid.SampledFrom(finalTypes).Draw(g.t, "finalt"), 0))
 	g.finish(forms)
 	return forms
 }
